@@ -1,0 +1,14 @@
+//go:build verif
+
+package filters
+
+// VerifSchedHook, when set, is called at named points of the event system's goroutines so that a test can
+// hold one goroutine there while another runs (verification instrumentation, only compiled with the `verif`
+// build tag).
+var VerifSchedHook func(point string)
+
+func verifSchedPoint(point string) {
+	if h := VerifSchedHook; h != nil {
+		h(point)
+	}
+}
